@@ -13,6 +13,8 @@ CHECKS = {
          "Every reconcile-ending transition is replayed on the real composite.Reconciler (+3 fault-free reconciles) and a fault sweep covers every real call index; "
          "TLC judges NoLeak, AtMostOne, NameStable on every recorded state/step and Quiescent at steady state.",
          "Bounds quick: 2 names, 4 ids, 3 reconciles, 1 fault, 2 env steps (sampled); thorough: 3 names, 5 ids, 4 reconciles, 2 faults, 3 env steps.", "DESIGN.md 3 C01"),
+ "C02": ("spec/Ownership.tla states the rule over write logs (a target whose controller reference names a foreign owner is never written, stays byte-identical, and the conflict surfaces); TLC enumerates placements x pre-states for the objects no other module drives (CRDs of an XRD, RBAC roles/binding/XRD roles, the package revision with the derived name incl. history GC) and the real definition/offered/RBAC/manager reconcilers run on simapi; the ForeignUntouched* riders of XRCompose (both composers), ConnSecrets (XR and claim secrets), Establisher (active and inactive revisions) and PkgManager run in the same check.",
+         "Placements enumerated, not discovered: a new kind of object Crossplane starts writing needs a new case. Usage in-use label and the plain owner reference of an inactive revision are excluded as the property says.", "DESIGN.md 3 C02"),
  "C03": ("Same module as C01; the environment also chooses how and at which step the pipeline fails (function error, fatal result, requirements that never stabilise) and changes the desired set; "
          "TLC judges FailSafe (no composed write, references untouched after an observation/pipeline failure), NeverDeleteDesired and GcExact (deleted = referenced, controllable, no longer desired) on the real traces.",
          "Two-step scripted pipeline (step 1 over-approximates, the last step decides); bounds as C01.", "DESIGN.md 3 C03"),
